@@ -246,6 +246,23 @@ func VerifyFunc(P *Program, fn *ssa.Function, c *Contract, cf *ContractFile, ins
 		}
 		e.assume("true", g)
 	}
+	// ghost@entry : var = expr  (ghost variables local to this verification: initialised at entry)
+	for i := range c.Sites {
+		sc := &c.Sites[i]
+		if sc.Kind == "ghost" && sc.Site == "entry" {
+			v, err := e.eval(entryCtx, sc.Clause.E)
+			if err != nil {
+				e.bindError(name+".ghost@entry", err)
+				continue
+			}
+			if srt, ok := e.ghostDecl[sc.Var]; ok {
+				st.ghost[sc.Var] = e.define("gh."+sc.Var, srt, v.S)
+				e.siteHit[sc.Site]++
+			} else {
+				e.bindError(name+".ghost@entry", fmt.Errorf("ghost variable %s is not declared", sc.Var))
+			}
+		}
+	}
 	// known-finding classes
 	for _, k := range c.Known {
 		if !vo.knownActive[k.ID] {
